@@ -44,7 +44,7 @@ def correspondence(ck, binpath, n, maxlen):
     if rc != 0:
         ck.tie_broken("harness c22 corr failed", err[-2000:])
         return
-    cases = [json.loads(l) for l in out.splitlines() if l.strip()]
+    cases = [json.loads(l) for l in jlines(out) if l.strip()]
     nshard = min(NCPU, max(1, len(cases) // 40))
     shards = [cases[i::nshard] for i in range(nshard)]
     bodies = []
@@ -86,7 +86,7 @@ def search(ck, binpath, n, maxlen, sigs):
     if rc != 0:
         ck.tie_broken("harness c22 search failed", err[-2000:])
         return
-    lines = [json.loads(l) for l in out.splitlines() if l.strip()]
+    lines = [json.loads(l) for l in jlines(out) if l.strip()]
     # report the smallest failing text first (the generator's fixed corpus and short texts come first anyway)
     lines.sort(key=lambda v: len(v.get("text", [])) if "summary" not in v else -1)
     for v in lines:
@@ -104,7 +104,7 @@ def replay(ck, binpath, path, sigs):
     for v in data.get("violations", []):
         t = v["case"].get("text")
         rc, out, err = ck.run_bin(binpath, ["one", "--text-json", json.dumps(t)])
-        for l in out.splitlines()[1:]:
+        for l in jlines(out)[1:]:
             vv = json.loads(l)
             if vv["signature"] in sigs:
                 ck.violation(vv["signature"], "%s on text %r" % (vv["what"], t), {"text": t, "what": vv["what"]})
